@@ -32,7 +32,7 @@ CHECKS = {
     category="proof",
     text="Proved in Coq END TO END for the affine fragment (same premises as C01): through the whole of compile the linear objective (coefficients and constant) equals the source objective at every assignment "
          "(C02_objective_affine), hence source-optimal and linear-optimal points and values coincide for min and max (C02_optimum_affine); and for the arithmetic fragment with abs, min and max (premises as C01_projection_abs) in the full form of the statement "
-         "(C02_objective_abs: no extension of a source point does better than its source value and one attains it; C02_optimum_abs: an optimal point of the compiled model is feasible and optimal for the source with the same value). PARTIAL beyond them: for an affine objective inside any model the emitted coefficients and "
+         "(C02_objective_abs: no extension of a source point does better than its source value and one attains it; C02_optimum_abs: an optimal point of the compiled model is feasible and optimal for the source with the same value; C02_optimum_abs_converse: an optimal point of the source extends to an optimal point of the compiled model; C02_optimal_value_abs, C02_feasible_together_abs, C02_unbounded_together_abs: the two models have the same optimal value, are feasible together and unbounded together - the three answers a solver can give). PARTIAL beyond them: for an affine objective inside any model the emitted coefficients and "
          "offset equal the source objective; one-sided and exact arm patterns relax in the right direction and are tight; the full statement (C02_objective_statement) is stated, not proved. " + CORE_TIE,
     design_ref="DESIGN.md section 4 / C02",
     technique="Coq proof (partial) + per-run structural correspondence of objective map/offset/direction + best-extension objective oracle on the implementation",
@@ -181,7 +181,7 @@ CHECKS = {
          "the fuel of the models is never what stops them; integer arithmetic on constants is checked: every integer result of every operator lies inside i64 / u64 for all operands, and the former panic/wrap cases (negating the smallest integer, "
          "negating a huge positive integer) are Overflow errors. The property itself is evaluated on the implementation under catch_unwind and a process-level watchdog: repository programs, fixed adversarial inputs, thousands of mutated programs, "
          "grammar-derived programs and raw noise go through parse, error rendering, format (+ re-parse), type_check, transform, Display, linearize, LP export, standardise and solve; parsing time is measured at nesting depths 8..128 for every recursive construct. "
-         "Three genuine defects repaired: exponential parsing time in the nesting depth of parentheses (64 levels never finished), a huge range aborting the process, a panic on negating the smallest integer.",
+         "All-real models with finite lower bounds are also solved by the tableau simplex and by Clarabel. Genuine defects repaired: exponential parsing time in the nesting depth of parentheses (64 levels never finished), a huge range aborting the process, a panic on negating the smallest integer, a panic of the good_lp bridge on a model without variables, simplification time doubling with every min / max nesting level. Open (known finding F55): flatten expands a product of k constant sums into 2^k terms.",
     design_ref="DESIGN.md section 4 / C18",
     technique="Coq theorems on loop step counters and checked arithmetic + watchdogged robustness run of every public stage on adversarial inputs",
     note="Trusted: Coq kernel; harness watchdog. Panics, stack depth, memory and time are runtime behaviour outside any model; solve is exercised on bounded models only (microlp hang F18 is recorded under C05)."),
